@@ -154,5 +154,5 @@ def space(tier):
         elif r < 0.35:
             p["single"] = "192.168.250.250"       # nobody there
         return p
-    sp.add("random", 3000 if tier == "quick" else 300_000, rnd)
+    sp.add("random", 12000 if tier == "quick" else 300_000, rnd)
     return sp
